@@ -686,6 +686,15 @@ func frameOOBPayload(rng *vrng, tag byte, idx, size int) []byte {
 
 // writer: the chunks of the stream with OOB messages interleaved at random points
 // frameMtuValue: growing, shrinking, boundary and out-of-range values
+func frameAEADIndex() int {
+	for i, c := range frameCiphers() {
+		if c.class == frameClassAEAD {
+			return i
+		}
+	}
+	return 0
+}
+
 func frameMtuValue(rng *vrng, sess *UDPSession) int {
 	ov := 0
 	if a, ok := sess.block.(*aeadCrypt); ok {
@@ -705,6 +714,9 @@ func frameMtuValue(rng *vrng, sess *UDPSession) int {
 		sess.mu.Lock()
 		cur := int(sess.kcp.mtu) + sess.headerSize + ov
 		sess.mu.Unlock()
+		if rng.chance(50) { // by less than the header / tag sizes
+			return cur - 1 - rng.intn(40)
+		}
 		return cur - 1 - rng.intn(cur/2+1)
 	case 5: // grow relative to now
 		sess.mu.Lock()
@@ -777,7 +789,16 @@ func (s *frameSide) run(rng *vrng, oob, flood, mtuOps bool, res *frameResult, re
 				}
 				time.Sleep(5 * time.Millisecond)
 			}
-			s.setMtu(576)
+			// how far the MTU is lowered: far; by less than the AEAD tag / the cipher header (what
+			// an on-wire limit compared with a pre-seal length misses); by a few dozen bytes
+			switch round {
+			case 0:
+				s.setMtu(1400 - 1 - rng.intn(16))
+			case 1:
+				s.setMtu(576)
+			default:
+				s.setMtu(1400 - 1 - rng.intn(48))
+			}
 			for k := 0; k < 8; k++ {
 				sess.Write(data[off : off+1])
 				off++
@@ -1697,7 +1718,11 @@ func frameScenarios(rng *vrng, prop string) []frameCfg {
 		}
 		for i := 0; prop == "C10sess" && i < 8; i++ { // directed: a FEC group straddling an accepted, smaller MTU
 			f := frameFecs[1+i%4]
-			add(frameCfg{Cipher: rng.intn(nc), D: f[0], P: f[1], MtuKind: 2, Pattern: 2, OOBMode: 1, Script: 1})
+			ci := rng.intn(nc)
+			if i%2 == 0 {
+				ci = frameAEADIndex()
+			}
+			add(frameCfg{Cipher: ci, D: f[0], P: f[1], MtuKind: 2, Pattern: 2, OOBMode: 1, Script: 1})
 		}
 		for i := 0; prop == "C09" && i < 12; i++ { // crowds: 16 sessions of one listener, one key, all sending at once
 			f := frameFecs[i%len(frameFecs)]
@@ -1740,6 +1765,9 @@ func frameScenarios(rng *vrng, prop string) []frameCfg {
 		if prop == "C10sess" && i >= n-4 { // directed: a FEC group straddling an accepted, smaller MTU
 			f := frameFecs[1+i%4]
 			c = frameCfg{Cipher: c.Cipher, D: f[0], P: f[1], MtuKind: 2, Pattern: 2, OOBMode: 1, Script: 1}
+			if i%2 == 0 {
+				c.Cipher = frameAEADIndex()
+			}
 		} else if prop == "C10sess" {
 			c.MtuOps = i%4 != 3
 			if c.OOBMode == 0 && i%3 != 0 {
